@@ -11,9 +11,10 @@ layers one by one on x and on ref, and walks back from the unit vector of the ta
   * element-wise activation f: multiplier *= (f(in_x) - f(in_ref)) / (in_x - in_ref) where the inputs
     differ, and f'(in_x) where they coincide exactly (f' by autograd on a fresh copy of the activation
     alone; where the one-sided difference quotients disagree -- a kink, e.g. ReLU at exactly 0 -- the
-    oracle is evaluated with the left AND the right derivative and the case is only compared when both
-    give the same multipliers).
-Cases in which some activation input has 0 < |in_x - in_ref| < BAND = 1e-5 are excluded (the statement
+    oracle is evaluated with the left AND the right derivative and only those ENTRIES of the multipliers /
+    attributions are compared for which both give the same value).
+Differences of at most 1e-13 (round-off of sums that are equal in exact arithmetic) count as "the inputs
+coincide".  Cases in which some activation input has 1e-13 < |in_x - in_ref| < BAND = 1e-5 are excluded (the statement
 excludes the ambiguous band around the implementation's 1e-6 switch; a difference of 1e-5 and more is
 ten times the switch and clearly "inputs that differ": the quotient is demanded there).
 
@@ -77,12 +78,13 @@ torch.set_num_threads(1)
 ENABLE_TRAIN_MODE = True
 
 SCOPE = {
-    'quick': 'seeded random sequential float64 nets from the C04 generator without max-pooling (depth 1-4 weight layers: Conv1d stride/dilation/padding, Linear, AvgPool1d, Flatten/Unflatten/Transpose, 16 element-wise activations; 12% nested nn.Sequential containers), alphabet 2-5, length 6-14, 1-3 examples x 1-4 references (tensor one-hot/zeros/uniform/real/x itself/duplicates/x + 3e-4..1e-2 noise; generated dinucleotide_shuffle / shuffle with int seed), every target incl. negative indices, batch sizes 1..n*S+2, options return_references=False / contradicting n_shuffles / raw_outputs+hypothetical; oracle paired with the GIVEN reference tensor: 1000 nets for clauses M/A/H, 300 affine nets for clause L (bias replacement, raw multipliers == W, hypothetical=True), 120 direct calls of hypothetical_attributions (incl. non-contiguous arguments); + 80 small-delta nets (dyadic first layer: activation-input differences exactly 0 or k*3.05e-5 / k*1.5e-5, straddling kinks) + 8 extra activations x 2 and 24 random nets registered through additional_nonlinear_ops + 40 nested + 40 length 1-5 + 12 many-example nets with the default batch_size + 2 with the defaults n_shuffles=20/batch_size=32 + 30 nets handed over in training mode (RReLU / Dropout) + 24 call histories (rule overrides in a preceding call on another / the same model; a preceding failing call), run last; excluded: band 0<|delta_in|<1e-5 and kink-ambiguous cases',
+    'quick': 'seeded random sequential float64 nets from the C04 generator without max-pooling (depth 1-4 weight layers: Conv1d stride/dilation/padding, Linear, AvgPool1d, Flatten/Unflatten/Transpose, 16 element-wise activations; 12% nested nn.Sequential containers), alphabet 2-5, length 6-14, 1-3 examples x 1-4 references (tensor one-hot/zeros/uniform/real/x itself/duplicates/x + 3e-4..1e-2 noise; generated dinucleotide_shuffle / shuffle with int seed), every target incl. negative indices, batch sizes 1..n*S+2, options return_references=False / contradicting n_shuffles / raw_outputs+hypothetical; oracle paired with the GIVEN reference tensor: 1000 nets for clauses M/A/H, 300 affine nets for clause L (bias replacement, raw multipliers == W, hypothetical=True), 120 direct calls of hypothetical_attributions (incl. non-contiguous arguments); + 80 small-delta nets (dyadic first layer: activation-input differences exactly 0 or k*3.05e-5 / k*1.5e-5, straddling kinks) + 8 extra activations x 2 and 24 random nets registered through additional_nonlinear_ops + 40 nested + 40 length 1-5 + 12 many-example nets with the default batch_size + 2 with the defaults n_shuffles=20/batch_size=32 + 30 nets handed over in training mode (RReLU / Dropout) + 24 call histories (rule overrides in a preceding call on another / the same model; a preceding failing call), run last; excluded: nets with an activation-input difference in the band 0<|delta_in|<1e-5, and the entries that depend on the one-sided derivative chosen at a kink',
     'thorough': 'same, up to 15000 nets (time budget), 1500 affine nets, 1000 direct helper calls, 800 small-delta nets, 200 extra-activation nets, 300 nested, 300 tiny, 100 many-example, 10 defaults, 200 training-mode nets, 96 call histories',
 }
 
 REL = 1e-9
 BAND = 1e-5
+COINCIDE = 1e-13     # round-off of sums that are equal in exact arithmetic (e.g. averages of the same one-hot entries): the inputs coincide
 
 
 # ---------------------------------------------------------------------------------------------
@@ -158,7 +160,7 @@ def oracle(layers, Xp, Rp, target, side):
                 ox, orr = layer(hx), layer(hr)
                 tape.append(('act', layer, hx, hr, ox, orr))
                 d = (hx - hr).abs()
-                if bool(((d > 0) & (d < BAND)).any()):
+                if bool(((d > COINCIDE) & (d < BAND)).any()):
                     band = True
             else:
                 tape.append(('lin', _jac(layer, tuple(hx.shape[1:])), tuple(hx.shape[1:])))
@@ -173,7 +175,7 @@ def oracle(layers, Xp, Rp, target, side):
             else:
                 _, f, ix, ir, ox, orr = rec
                 din = ix - ir
-                same = din == 0
+                same = din.abs() <= COINCIDE
                 dv, _ = _deriv(f, ix, side)
                 ratio = torch.where(same, dv, (ox - orr) / torch.where(same, torch.ones_like(din), din))
                 m = m * ratio
@@ -257,7 +259,8 @@ def _refs_of(case, X, given, returned):
     return given if given is not None else returned.double()
 
 
-def _cmp(got, exp, what, out):
+def _cmp(got, exp, what, out, mask=None):
+    """mask: entries that are compared (None: all)"""
     if not isinstance(got, torch.Tensor):
         out.append('%s: a %s was returned, not a tensor' % (what, type(got).__name__))
         return
@@ -268,6 +271,8 @@ def _cmp(got, exp, what, out):
         out.append('%s: non-finite values returned' % what)
         return
     err = (got - exp).abs()
+    if mask is not None:
+        err = torch.where(mask, err, torch.zeros_like(err))
     tol = REL * (1 + float(exp.abs().max()))
     if float(err.max()) > tol:
         i = numpy.unravel_index(int(err.argmax()), tuple(err.shape))
@@ -309,18 +314,19 @@ def check_rescale(case, info=None):
         return m, X * per_pos[:, None, :], exp_h
 
     lo, hi = expected(m_lo), expected(m_hi)
-    # a clause is compared only if the choice of one-sided derivative at kinks does not affect it
-    decided = [not band and float((a - b).abs().max()) <= 1e-12 * (1 + float(a.abs().max())) for a, b in zip(lo, hi)]
+    # an entry of a clause is compared only if the choice of one-sided derivative at kinks does not affect it
+    masks = [(a - b).abs() <= 1e-12 * (1 + float(a.abs().max())) for a, b in zip(lo, hi)]
+    decided = [not band and bool(mk.any()) for mk in masks]
     if info is not None:
         info['excluded'] = not any(decided)
-        info['partly'] = not all(decided)
+        info['partly'] = band or not all(bool(mk.all()) for mk in masks)
         info['band'] = band
     names = ('clause M (raw multipliers of every example-reference pair vs layer-by-layer rescale rule)         ',
              'clause A (attributions, hypothetical=False, vs X * mean_j sum_c (x-ref_j)*m_j)               ',
              'clause H (hypothetical=True vs mean_j sum_c (e_k-ref_j)*m_j for every character k)              ')
-    for ok, got, exp, name in zip(decided, (mult, attr, hyp), lo, names):
+    for ok, mk, got, exp, name in zip(decided, masks, (mult, attr, hyp), lo, names):
         if ok:
-            _cmp(got, exp, name, out)
+            _cmp(got, exp, name, out, mk)
     if info is not None:
         # non-trivial: the rescale rule differs from the plain gradient somewhere
         Xg = Xp.clone().requires_grad_()
@@ -588,7 +594,7 @@ def run(rep):
         case = _new_case(rng, 'rescale', 2 + k % 3, acts=ACT_NAMES if k % 2 else ['ReLU', 'Tanh', 'Sigmoid', 'GELU', 'ELU', 'Softplus'], nest=0.1)
         case['pre'] = ('override-other', 'override-same', 'raise')[k % 3]
         _run_rescale(rep, case, k, 'history', cnt, finding='call-history', sample={'spec': case['spec'], 'pre': case['pre']} if k < 1 else None)
-    rep.note('%d rescale-type cases excluded entirely (band 0<|delta_in|<%g, or the one-sided derivative at a kink affects every clause); %d more compared on a subset of the clauses M/A/H only' % (cnt['excl'], BAND, cnt['part']))
+    rep.note('%d rescale-type cases excluded entirely (band 0<|delta_in|<%g, or the one-sided derivative at a kink affects every entry); %d more compared on a subset of the entries of M/A/H only (entries that do not depend on the one-sided derivative chosen at a kink)' % (cnt['excl'], BAND, cnt['part']))
 
 
 def replay(case):
